@@ -80,8 +80,8 @@ def start_suite(prop, seed, workdir):
     out = os.path.join(workdir, "suite.json")
     e = dict(os.environ, VMON_PROP=prop, VMON_OUT=out, PYTHONPATH=env.VERIF + os.pathsep + os.path.join(env.VERIF, ".deps"),
              PYTHONHASHSEED="0", PYTHONDONTWRITEBYTECODE="1", HYPOTHESIS_STORAGE_DIRECTORY=os.path.join(workdir, "hyp"))
-    cmd = [env.PY, "-m", "pytest", "-q", "-x", "--co", "-p", "no:cacheprovider"]
-    cmd = [env.PY, "-m", "pytest", "-q", "-p", "no:cacheprovider", "-p", "vmon.pytest_plugin", "--timeout=900",
+    # hypothesis draws are made reproducible: the same VERIF_SEED observes the same examples
+    cmd = [env.PY, "-m", "pytest", "-q", "-p", "no:cacheprovider", "-p", "vmon.pytest_plugin", "--timeout=900", "--hypothesis-seed=%d" % seed,
            "--continue-on-collection-errors", "-o", "addopts=", "--doctest-modules", "puan", "tests"]
     log = open(os.path.join(workdir, "suite.log"), "w")
     p = subprocess.Popen(cmd, cwd=env.REPO, env=e, stdout=log, stderr=subprocess.STDOUT)
